@@ -1,16 +1,22 @@
 #!/usr/bin/env python3
-"""Prints the as-built table (markdown) from MANIFEST.json + evidence/*.json (quick tier numbers)."""
-import json
+"""Prints the as-built table (markdown) from MANIFEST.json + evidence/*.json (quick tier) and, if given, a directory
+with the evidence files of a thorough run (<dir>/Cxx.evidence.json)."""
+import json, sys, os
 m=json.load(open('/verif/MANIFEST.json'))
+tdir=sys.argv[1] if len(sys.argv)>1 else None
+def num(e):
+    cov=e['coverage']
+    if e['level']=='model_checking' and 'states' in cov:
+        return f"{cov['states']:,} states / {cov['transitions']:,} transitions" + (", fixpoint" if cov.get('fixpoint_reached') else f", depth {cov.get('max_depth')}")
+    return f"{cov.get('evaluations',0):,} executions / {cov.get('distinct_nontrivial',0):,} distinct outcomes"
 rows=[]
 for c in m['checks']:
     pid=c['property_id']
     e=json.load(open(f'/verif/evidence/{pid}.json'))
-    cov=e['coverage']
-    if e['level']=='model_checking' and 'states' in cov:
-        n=f"{cov['states']:,} states / {cov['transitions']:,} transitions" + (", fixpoint" if cov.get('fixpoint_reached') else f", depth {cov.get('max_depth')}")
-    else:
-        n=f"{cov.get('evaluations',0):,} executions / {cov.get('distinct_nontrivial',0):,} distinct outcomes"
-    rows.append(f"| {pid} | {c['engine']} | {e['level']} | {n} | {e['wall_s']:.0f} s |")
-print("| Property | Engine | Evidence level | Quick tier, measured on this tree | Wall (loaded box) |\n|---|---|---|---|---|")
+    t=""
+    if tdir and os.path.exists(f'{tdir}/{pid}.evidence.json'):
+        te=json.load(open(f'{tdir}/{pid}.evidence.json'))
+        t=f"{num(te)} ({te['wall_s']:.0f} s)"
+    rows.append(f"| {pid} | {c['engine']} | {e['level']} | {num(e)} ({e['wall_s']:.0f} s) | {t} |")
+print("| Property | Engine | Evidence level | Quick tier (wall) | Thorough tier (wall) |\n|---|---|---|---|---|")
 print("\n".join(rows))
